@@ -334,3 +334,230 @@ void h_find_reference(void)
 	__CPROVER_assert(*an_ref(&d) == &d_vc, "[C16] replace_reference redirects exactly that pointer");
 	CANARY();
 }
+
+/* ====================================================================
+ * Step lemma for rebalance_path (the walk from the changed node to the
+ * root), valid for every tree and every path length.
+ *
+ * State at a loop head, node `an` (INV(an)):
+ *   - every proper descendant of an is balanced with exact recorded heights
+ *     (the neighbourhood of v_build, abstract subtrees at its rim);
+ *   - an's recorded height `old` is the one it had before the change: there is
+ *     a side s and a delta in {-1,0,+1} such that undoing delta on side s gives
+ *     children heights that differ by at most one and whose max + 1 is `old`;
+ *   - an's parent P (if any) is consistent WITH THAT RECORDED height:
+ *     P->height == 1 + max(old, hs), |old - hs| <= 1, hs = height of the
+ *     sibling (an abstract subtree); everything above P is likewise consistent
+ *     with the recorded heights and is not touched by one iteration.
+ * One iteration of the real loop (find_reference replaced by its contract,
+ * proved in avl_find_reference; its second call is the next loop head, where
+ * the state is checked and the path cut):
+ *   - the subtree that hung at an is balanced, exact, correctly parented, hangs
+ *     where an hung, its in-order sequence is unchanged, its height h' differs
+ *     from `old` by at most one;
+ *   - the walk stops only if h' == old (then P is consistent with true heights,
+ *     and so, by the third item, is everything above: the whole tree is an AVL
+ *     tree) or an was the root;
+ *   - otherwise it continues at P, and INV(P) holds with s = an's side and
+ *     delta = h' - old.
+ * Induction over the iterations is the paper step.
+ * ================================================================== */
+struct verif_path_t {
+	_Bool	is_left;	/* an is P's left child */
+	uint8_t	hs;		/* height of the sibling subtree, 0 = none */
+	_Bool	s_left;		/* witness: the side of an that changed */
+	int8_t	delta;		/* witness: by how much */
+};
+static struct verif_path_t	v_path;
+static struct iv_avl_tree	v_ptree;
+static struct iv_avl_node	v_sib;
+static int			g_fr_calls, v_old, v_seq0[NN + 1], v_seqn0;
+static struct iv_avl_node	**v_ref1;
+
+static void path_check_subtree(int *hnew)
+{
+	int i;
+
+	__CPROVER_assert(*v_ref1 != NULL && (*v_ref1)->parent == (verif_in.has_parent ? &v_parent : NULL),
+			 "[C16] the rebalanced subtree hangs where the node hung and points back to the same parent");
+	g_ok = 1;
+	*hnew = check(*v_ref1, verif_in.has_parent ? &v_parent : NULL, 4);
+	__CPROVER_assert(g_ok, "[C16] after a step of the walk every node of the subtree is height-balanced, every recorded height is exact and every parent link is consistent");
+	__CPROVER_assert(*hnew - v_old >= -1 && *hnew - v_old <= 1, "[C16] a step of the walk changes the subtree height its parent recorded by at most one");
+	g_seq_n = 0;
+	inorder(*v_ref1, 4);
+	__CPROVER_assert(g_seq_n == v_seqn0, "[C16] no node or subtree is lost or duplicated by a step of the walk");
+	for (i = 0; i < NN; i++)
+		if (i < v_seqn0)
+			__CPROVER_assert(g_seq[i] == v_seq0[i], "[C16] a step of the walk preserves the in-order sequence (comparator order)");
+	if (verif_in.has_parent) {
+		__CPROVER_assert((v_path.is_left ? v_parent.right : v_parent.left) == (v_path.hs ? &v_sib : NULL) &&
+				 v_sib.parent == &v_parent && v_sib.height == v_path.hs, "[C16] the sibling subtree is untouched");
+		__CPROVER_assert(v_ref1 == (v_path.is_left ? &v_parent.left : &v_parent.right), "reference");
+	} else {
+		__CPROVER_assert(v_ptree.root == *v_ref1, "[C16] the root pointer follows a rotation at the root");
+	}
+}
+
+/* contract of find_reference (proved in avl_find_reference); the second call is the next loop head */
+struct iv_avl_node **verif_find_reference(struct iv_avl_tree *tree, const struct iv_avl_node *an)
+{
+	int hnew, m;
+
+	g_fr_calls++;
+	__CPROVER_assert(tree == &v_ptree, "[C16] the walk stays in its tree");
+	if (g_fr_calls == 1) {
+		__CPROVER_assert(an == &v_n[0], "[C16] the walk starts at the node it was given");
+		return v_ref1;
+	}
+	/* second iteration, after its recalc_height */
+	__CPROVER_assert(verif_in.has_parent && an == &v_parent, "[C16] the walk continues with the parent of the rebalanced subtree");
+	path_check_subtree(&hnew);
+	m = hnew > v_path.hs ? hnew : v_path.hs;
+	__CPROVER_assert(v_parent.height == 1 + m, "[C16] the parent's height is recomputed from the new subtree height");
+	__CPROVER_assert(hnew - v_path.hs >= -2 && hnew - v_path.hs <= 2, "[C16] so the parent is off balance by at most two when the walk reaches it, and its recorded height was consistent with the old subtree height: the loop-head state holds again one level up");
+	__CPROVER_assume(0);
+	return NULL;
+}
+
+void h_rebalance_path_step(void)
+{
+	struct verif_path_t nd;
+	int hl, hr, hlo, hro, i, hnew, m;
+
+	v_build();
+	v_path = nd;
+	hl = h0(1); hr = h0(2);
+	/* witness of the state before the change */
+	__CPROVER_assume(v_path.delta >= -1 && v_path.delta <= 1);
+	hlo = hl - (v_path.s_left ? v_path.delta : 0);
+	hro = hr - (v_path.s_left ? 0 : v_path.delta);
+	__CPROVER_assume(hlo >= 0 && hro >= 0 && hlo - hro >= -1 && hlo - hro <= 1);
+	v_old = 1 + (hlo > hro ? hlo : hro);
+	v_n[0].height = v_old;
+	/* the parent, consistent with the recorded height */
+	v_ptree.root = &v_n[0];
+	v_ref1 = &v_ptree.root;
+	if (verif_in.has_parent) {
+		__CPROVER_assume(v_path.hs <= 251 && v_old - v_path.hs >= -1 && v_old - v_path.hs <= 1);
+		m = v_old > v_path.hs ? v_old : v_path.hs;
+		v_parent.height = 1 + m;
+		v_parent.parent = (struct iv_avl_node *)(uintptr_t)8;	/* everything above: not touched by one iteration */
+		abstract_node(&v_sib, &v_parent, v_path.hs);
+		if (v_path.is_left) {
+			v_parent.left = &v_n[0];
+			v_parent.right = v_path.hs ? &v_sib : NULL;
+			v_ref1 = &v_parent.left;
+		} else {
+			v_parent.right = &v_n[0];
+			v_parent.left = v_path.hs ? &v_sib : NULL;
+			v_ref1 = &v_parent.right;
+		}
+		v_ptree.root = (struct iv_avl_node *)(uintptr_t)8;
+	}
+	g_seq_n = 0;
+	inorder(&v_n[0], 4);
+	v_seqn0 = g_seq_n;
+	for (i = 0; i < NN; i++)
+		v_seq0[i] = g_seq[i];
+	g_fr_calls = 0;
+
+	rebalance_path(&v_ptree, &v_n[0]);
+
+	/* the walk has stopped */
+	__CPROVER_assert(g_fr_calls == 1, "[C16] one step was taken");
+	path_check_subtree(&hnew);
+	if (verif_in.has_parent) {
+		__CPROVER_assert(hnew == v_old, "[C16] the walk stops below the root only where the subtree height is what the parent recorded");
+		m = hnew > v_path.hs ? hnew : v_path.hs;
+		__CPROVER_assert(v_parent.height == 1 + m && hnew - v_path.hs >= -1 && hnew - v_path.hs <= 1,
+				 "[C16] where the walk stops the parent is balanced with an exact recorded height, hence (nothing above was touched) so is every node of the tree");
+	}
+	CANARY();
+}
+
+/* ====================================================================
+ * The state in which iv_avl_tree_insert starts the walk: the new node is a
+ * correctly linked leaf in the empty place the search ended at, and the
+ * loop-head state INV(p) holds at its parent with delta = +1.  The search
+ * descends through `depth` <= 2 real nodes here (it only reads; the glue after
+ * it touches the new node and the one pointer *pp); rebalance_path is replaced
+ * by a stub that checks the state it is started in.
+ * ================================================================== */
+struct verif_ins_t {
+	uint8_t	depth;		/* 0: empty tree, 1: p is the root, 2: p hangs from the root */
+	_Bool	p_is_left;	/* where p hangs from the root (depth 2) */
+	_Bool	go_left;	/* side of p the new node goes to */
+	_Bool	p_has_other;	/* p's other child exists (a leaf: p was balanced with an empty side) */
+	int8_t	c1, c2, c3;	/* comparator verdicts along the search */
+};
+static struct verif_ins_t	v_ins;
+static struct iv_avl_node	i_root, i_p, i_other, i_new, i_rsib;
+static int			g_cmp_calls, g_rp_calls;
+
+static int ins_compare(const struct iv_avl_node *a, const struct iv_avl_node *b)
+{
+	g_cmp_calls++;
+	__CPROVER_assert(a == &i_new, "[C16] the search compares the new node against nodes of the tree");
+	if (v_ins.depth == 2 && b == &i_root)
+		return v_ins.p_is_left ? -1 : 1;
+	__CPROVER_assert(b == &i_p, "[C16] the search follows child links from the root");
+	return v_ins.go_left ? -1 : 1;
+}
+
+void verif_rebalance_path_pre(struct iv_avl_tree *tree, struct iv_avl_node *an)
+{
+	struct iv_avl_node *other = v_ins.p_has_other ? &i_other : NULL;
+
+	g_rp_calls++;
+	__CPROVER_assert(tree == &v_ptree, "tree");
+	__CPROVER_assert(i_new.left == NULL && i_new.right == NULL && i_new.height == 1, "[C16] the new node is a leaf of height one whatever its link fields held before");
+	if (v_ins.depth == 0) {
+		__CPROVER_assert(an == NULL && v_ptree.root == &i_new && i_new.parent == NULL, "[C16] the first node becomes the root; there is no path to rebalance");
+		return;
+	}
+	__CPROVER_assert(an == &i_p && i_new.parent == &i_p, "[C16] the walk starts at the new leaf's parent");
+	__CPROVER_assert((v_ins.go_left ? i_p.left : i_p.right) == &i_new && (v_ins.go_left ? i_p.right : i_p.left) == other,
+			 "[C16] the new leaf fills exactly the empty place the search ended at; the other child is untouched");
+	__CPROVER_assert(i_p.height == (v_ins.p_has_other ? 2 : 1), "[C16] the parent's recorded height is the one from before the insertion: loop-head state with the new leaf's side grown by one");
+	__CPROVER_assert(i_p.parent == (v_ins.depth == 2 ? &i_root : NULL) &&
+			 (v_ins.depth == 2 ? (v_ins.p_is_left ? i_root.left : i_root.right) == &i_p && i_root.height == 3 : v_ptree.root == &i_p),
+			 "[C16] nothing above the parent is touched before the walk");
+}
+
+void h_insert_base(void)
+{
+	struct verif_ins_t nd;
+	int r;
+
+	v_ins = nd;
+	__CPROVER_assume(v_ins.depth <= 2);
+	v_ptree.compare = ins_compare;
+	g_cmp_calls = g_rp_calls = 0;
+	/* stale link fields: the node may have been in a tree before */
+	i_new.left = &i_rsib; i_new.right = &i_rsib; i_new.parent = &i_rsib; i_new.height = 9;
+	i_other.left = NULL; i_other.right = NULL; i_other.height = 1; i_other.parent = &i_p;
+	i_p.height = v_ins.p_has_other ? 2 : 1;
+	i_p.left = v_ins.go_left ? NULL : (v_ins.p_has_other ? &i_other : NULL);
+	i_p.right = v_ins.go_left ? (v_ins.p_has_other ? &i_other : NULL) : NULL;
+	if (v_ins.depth == 0) {
+		v_ptree.root = NULL;
+	} else if (v_ins.depth == 1) {
+		v_ptree.root = &i_p;
+		i_p.parent = NULL;
+	} else {
+		v_ptree.root = &i_root;
+		i_root.parent = NULL;
+		i_root.height = 3;
+		abstract_node(&i_rsib, &i_root, 2);
+		i_root.left = v_ins.p_is_left ? &i_p : &i_rsib;
+		i_root.right = v_ins.p_is_left ? &i_rsib : &i_p;
+		i_p.parent = &i_root;
+	}
+
+	r = iv_avl_tree_insert(&v_ptree, &i_new);
+
+	__CPROVER_assert(r == 0, "[C16] inserting a key that compares unequal to every node on the search path succeeds");
+	__CPROVER_assert(g_rp_calls == 1 && g_cmp_calls == v_ins.depth, "[C16] one comparison per level, then one rebalancing walk");
+	CANARY();
+}
